@@ -326,6 +326,9 @@ impl Session {
     }
 
     pub fn render(&mut self, w: u16, h: u16) -> u64 {
+        // the real loop draws right after `maintain()` (which moves the listing to the current line, ages
+        // the highlights, ...): with the injection queue empty, verif_step() is exactly that
+        let _ = self.tui.verif_step();
         let area = Rect::new(0, 0, w, h);
         let mut buf = Buffer::empty(area);
         Interface.render(area, &mut buf, &mut self.tui);
@@ -658,7 +661,11 @@ pub fn run() {
     if let Some(f) = ctx.replay_file.clone() {
         let text = std::fs::read_to_string(&f).expect("replay file");
         let kv = mc::kv(text.lines().next().unwrap_or(""));
-        let keys = parse_keys(&kv["seq"]);
+        // the key list may contain typed blanks: everything behind "seq=" up to a trailing " # comment"
+        let first = text.lines().next().unwrap_or("");
+        let seq = first.split_once("seq=").map(|x| x.1).unwrap_or("");
+        let seq = seq.split(" # ").next().unwrap_or("");
+        let keys = parse_keys(seq);
         let (w, h) = kv["size"].split_once('x').map(|(a, b)| (a.parse().unwrap(), b.parse().unwrap())).unwrap_or((76, 28));
         let r = mc::catch(|| {
             let mut s = replay(&keys)?;
@@ -800,6 +807,14 @@ pub fn run() {
         typed("load prögrämm-mït-ümläütén-ünd-ñ-ïm-nämën-ÿÿÿÿ.asm"),
         { let mut k = typed("load big.asm"); k.extend(typed("next 1900")); k.extend(typed("show memory")); k },
         { let mut k = typed("load ok.asm"); k.extend(typed("next 40")); k.extend("set TEMP = 3.3".chars().map(|c| K::E(Key::Char(c)))); k },
+        // a long listing with the current line in its middle / at its end, and an input line that opens each
+        // of the command helps (the panes around the listing change their height with it)
+        { let mut k = typed("load big.asm"); k.extend(typed("next 700")); k.extend("set ".chars().map(|c| K::E(Key::Char(c)))); k },
+        { let mut k = typed("load big.asm"); k.extend(typed("next 3")); k.extend("SET I1 = 2".chars().map(|c| K::E(Key::Char(c)))); k },
+        { let mut k = typed("load long.asm"); k.extend(typed("next 150")); k.extend("unset ".chars().map(|c| K::E(Key::Char(c)))); k },
+        { let mut k = typed("load umlaut.asm"); k.extend(typed("next 90")); k.extend("show ".chars().map(|c| K::E(Key::Char(c)))); k },
+        { let mut k = typed("load big.asm"); k.extend(typed("next 1900")); k.extend("next ".chars().map(|c| K::E(Key::Char(c)))); k },
+        { let mut k = typed("load long.asm"); k.push(K::E(Key::Enter)); k.extend("load ".chars().map(|c| K::E(Key::Char(c)))); k },
     ];
     let rep_sizes: Vec<(u16, u16)> = {
         let mut v = vec![];
@@ -1065,6 +1080,62 @@ pub fn run() {
             }
         }
     }
+    // ---- the real main loop (`Tui::run`: emulation between frames, sleeping, drawing on a terminal) cannot be
+    // entered in-process; a handful of scripted sessions run the real binary under a pseudo terminal
+    // (tools/pty_session.py). Every session ends with CTRL+C and must end with exit status 0. ----
+    let mut runloop_sessions = 0u64;
+    {
+        let script = mc::verif_root().join("tools").join("pty_session.py");
+        let have = std::process::Command::new("python3").arg("-c").arg("import pty").output().map(|o| o.status.success()).unwrap_or(false);
+        match (std::env::var("VERIF_BIN"), have && script.exists()) {
+            (Ok(bin), true) if std::path::Path::new(&bin).exists() => {
+                std::fs::write(dir.join("loop.asm"), "#! mrasm\nL:\n INC R0\n ST (0xFF), R0\n JR L\n").unwrap();
+                std::fs::write(dir.join("halts.asm"), "#! mrasm\n LD R0, 7\nL:\n ST (0xFF), R0\n STOP\n INC R0\n JR L\n").unwrap();
+                std::fs::write(dir.join("overflow.asm"), "#! mrasm\n LDSP 0xE0\nF:\n PUSH R0\n CALL F\n").unwrap();
+                let sessions: Vec<(&str, Option<&str>, &str, Vec<&str>)> = vec![
+                    ("autorun on a looping program", Some("loop.asm"), "120x40", vec!["^a", "WAIT:1.2", "^c"]),
+                    ("autorun toggled, single steps", Some("loop.asm"), "120x40", vec!["^a", "WAIT:0.5", "^a", "ENTER", "ENTER", "^c"]),
+                    ("autorun in assembly step mode", Some("loop.asm"), "100x30", vec!["^w", "^a", "WAIT:0.8", "^c"]),
+                    ("autorun into a STOP, continue", Some("halts.asm"), "120x40", vec!["^a", "WAIT:0.5", "^l", "WAIT:0.4", "^c"]),
+                    ("autorun into an error stop, reset", Some("overflow.asm"), "120x40", vec!["^a", "WAIT:0.5", "^r", "WAIT:0.3", "^c"]),
+                    ("commands without a program", None, "120x40", vec!["FC = 5", "ENTER", "ENTER", "bogus", "ENTER", "x", "^a", "WAIT:0.3", "^c"]),
+                    ("terminal below the minimum size", Some("loop.asm"), "70x20", vec!["^a", "WAIT:0.4", "^c"]),
+                    ("interrupt key while running", Some("loop.asm"), "120x40", vec!["^a", "WAIT:0.3", "^e", "WAIT:0.3", "^e", "^c"]),
+                ];
+                let rr = mc::par_map(&sessions, |(name, prog, size, keys)| {
+                    let mut cmd = std::process::Command::new("python3");
+                    cmd.arg(&script).arg(&bin).arg(&dir).arg(size).arg("10");
+                    if let Some(p) = prog {
+                        cmd.arg("--program").arg(p);
+                    }
+                    cmd.arg("--");
+                    for k in keys {
+                        cmd.arg(k);
+                    }
+                    let line = format!("runloop size={} program={:?} keys={}", size, prog, keys.join("~"));
+                    match mc::output_with_timeout(&mut cmd, 60) {
+                        Ok(Some(o)) => {
+                            let out = String::from_utf8_lossy(&o.stdout).to_string();
+                            let verdict = out.lines().find(|l| l.starts_with("EXIT ")).unwrap_or("EXIT ?").to_string();
+                            if verdict == "EXIT 0" {
+                                None
+                            } else {
+                                Some(("runloop/session-does-not-end-cleanly".to_string(), line, format!("[{}] the interactive binary under a pseudo terminal: {} (expected EXIT 0 after CTRL+C)", name, verdict)))
+                            }
+                        }
+                        Ok(None) => Some(("runloop/session-does-not-end-cleanly".to_string(), line, format!("[{}] the pseudo-terminal session did not finish within 60 s", name))),
+                        Err(_) => None,
+                    }
+                });
+                runloop_sessions = sessions.len() as u64;
+                for x in rr.into_iter().flatten() {
+                    note(&mut bad, x.0, x.1, x.2);
+                }
+            }
+            _ => ctx.assume("the run-loop sessions under a pseudo terminal were skipped (python3 with the pty module or the binary is not available)"),
+        }
+    }
+    ctx.set("run_loop_sessions_under_a_pseudo_terminal", runloop_sessions);
     mc::watch::idle();
     // ---- control keys after each of 20 machine states ----
     let mut ctl_runs = 0u64;
